@@ -141,6 +141,15 @@ func c18Violate(env *Env, fp, format string, a ...any) {
 		env.Stat("not_judged_window_edge_in_repeated_dst_hour")
 		return
 	}
+	// One defect, one fingerprint: whichever rule notices that a window edge falls on a wall-clock time that
+	// does not exist (or, for the reset rule, exists twice) on a DST day, it is the same known finding.
+	for _, tag := range []string{"window-edge-in-dst-gap", "window-edge-in-repeated-dst-hour"} {
+		if strings.Contains(fp, tag) {
+			format = "[" + fp + "] " + format
+			fp = "C18/" + tag
+			break
+		}
+	}
 	env.Violate(fp, format, a...)
 }
 
